@@ -451,8 +451,23 @@ func (fr *Frame) loopWrites(li *loopInfo) (keys map[string]bool, all bool) {
 					sp = fr.e.L.funcTypeSpec(cc.Value.Type())
 				}
 				if sp != nil && !sp.ModAll {
+					var at []types.Type
+					if cc.IsInvoke() {
+						// interface contracts name the receiver a0 and the arguments a1...
+						at = append(at, cc.Value.Type())
+						for _, a := range cc.Args {
+							at = append(at, a.Type())
+						}
+					} else {
+						// function-type contracts: fn, then a0... (shifted by one)
+						at = append(at, cc.Value.Type())
+						for _, a := range cc.Args {
+							at = append(at, a.Type())
+						}
+					}
+					fr.e.argFT = !cc.IsInvoke()
 					for _, m := range sp.Modifies {
-						for _, k := range fr.e.keysOfModClause(nil, m) {
+						for _, k := range fr.e.keysOfModClause(nil, m, at...) {
 							if k == "*" {
 								all = true
 							}
